@@ -103,8 +103,10 @@ def _run(ix, R):
         want = spec(fl, 'L[:-1]*sqrt(L[1:]/L[:-1])', {'L': code(fl, 'self.pressure_profile_levels')})
         # (the levels may be read back from the attribute or taken from the value just stored in it)
         want_b = spec(fl, 'L[:-1]*sqrt(L[1:]/L[:-1])', {'L': lev.value})
+        from sa.helpers import unalloc_deep
+        layv = unalloc_deep(fl, lay.value)      # (built in a scratch buffer with out= or not: the value is the same)
         R.check('1.layers', 'ALG', site, 'layer pressure = geometric mean of its two levels: L[:-1]*sqrt(L[1:]/L[:-1])',
-                (fl.tab.equal(lay.value, want) or fl.tab.equal(lay.value, want_b)) and fl.events.index(lev) < fl.events.index(lay),
+                (fl.tab.equal(layv, want) or fl.tab.equal(layv, want_b)) and fl.events.index(lev) < fl.events.index(lay),
                 key=fmt(fl, lay.value), detail=fmt(fl, lay.value), loc=f.loc(lay.node))
     # array / file pressure profiles: the levels are rebuilt around the very layer pressures the model reads
     AP = 'taurex/data/profiles/pressure/arraypressure.py'
@@ -174,6 +176,7 @@ def _run(ix, R):
     # ---- 2. hydrostatic recurrence
     site = PL + '::BasePlanet.calculate_scale_properties'
     ret_lens = None
+    aligned = [False]       # set once the returned arrays are shown to be aligned with the layers (2.hydro, 3.alloc)
     with R.guard('2.hydro', 'ALG', site, 'hydrostatic'):
         f = ix.func(site)
         fl = mkflow(ix, site)
@@ -244,6 +247,13 @@ def _run(ix, R):
             raise AnalysisError('the integration is not one range() loop with a constant start')
         lo = lp.range_args[0]
         if not fl.tab.equal(lp.range_args[1] - lo, N):
+            # fewer passes AND stores to the same arrays after the loop: the last level(s) are handled outside it
+            # (a peeled iteration) - a shape this rule does not read.  Fewer passes and nothing after the loop is the
+            # off-by-one it reports.
+            after_ = [e for e in sts if not e.loops and fl.events.index(e) > fl.events.index(lp_st[-1])]
+            if after_ or any(e.value.mentions(lambda a: a.head == 'phi') for e in lp_st if isinstance(e.value, RF)):
+                raise AnalysisError('the loop runs %s times and the arrays are also written after it (or from values carried '
+                                    'between passes): a peeled / pipelined integration is not read by this rule' % fmt(fl, lp.range_args[1] - lo))
             why.append('the loop runs %s times, not once per layer' % fmt(fl, lp.range_args[1] - lo))
         j = fl.tab.name('k')
         Rn = {nm: fl.tab.name('R_' + nm) for nm in allocs}
@@ -313,6 +323,7 @@ def _run(ix, R):
         R.check('3.alloc', 'SHAPE', site, 'H, g, dz are returned with N entries, z with N+1 (N = number of layers = len(T))',
                 not why, key='; '.join(why), detail='; '.join(why), loc=f.loc())
         ret_lens = [l[:2] + (0,) if l else None for l in ret_lens]
+        aligned[0] = True
     for nm, want in (('gravity_at_height', 'G*self.fullMass/(self.fullRadius + h)**2'),
                      ('gravity', 'G*self.fullMass/self.fullRadius**2')):
         site = PL + '::BasePlanet.' + nm
@@ -345,8 +356,9 @@ def _run(ix, R):
         R.check('3.call', 'ARG', site, 'calculate_scale_properties(temperature profile, pressure LEVELS, mu profile)',
                 okc, key=str({k: fmt(fl, v) for k, v in got.items()}), detail=str({k: fmt(fl, v) for k, v in got.items()}),
                 loc=f.loc(cs.node))
-        if ret_lens is None:
-            raise AnalysisError('return lengths of calculate_scale_properties unknown')
+        if ret_lens is None or not aligned[0]:
+            raise AnalysisError('the lengths / alignment of what calculate_scale_properties returns were not established '
+                                '(its own obligations are undecided)')
         call = fl.tab.atom('call', tuple(cs.args), extra=('fn:' + fl.canon('self.planet') + '.calculate_scale_properties',))
         # the unpacked names are idx(call, k)
         base = {}
